@@ -11,57 +11,62 @@
 (***************************************************************************)
 EXTENDS SuspPlacement, Json
 
+CONSTANTS MaxNameDense,   \* name lengths swept for the reference identifier length of a kind
+          MaxNameOther,   \* ... and for the other identifier lengths
+          FileLenFi,      \* ISO9660 identifier lengths of files ("NAME.;1")
+          DirLenFi,       \* ... of directories
+          RelocLenFi,     \* ... of relocated directories (interchange level < 4 only)
+          SymLenFi,       \* ... of symlinks
+          SymNames,       \* Rock Ridge name lengths of symlinks while the target is swept
+          OneMax          \* largest single component
+
 Versions == {"1.09", "1.10", "1.12"}
 NamedLengths == {256, 500, 1000, 1200}
-CONSTANTS MaxNameDense,   \* name lengths swept for the reference identifier length of a kind
-          MaxNameOther    \* ... and for the other identifier lengths
 
 Pat == <<1, 0 - 2, 0 - 3, 0, 254, 255, 256>>
 
 \* symlink target families: components as a function of the swept parameter n
-Comps(fam, n) ==
-  CASE fam = "one"     -> <<n>>
-    [] fam = "absone"  -> <<0 - 1, n>>
-    [] fam = "ones"    -> [j \in 1 .. n |-> 1]
-    [] fam = "big255"  -> [j \in 1 .. n |-> 255]
-    [] fam = "dots"    -> [j \in 1 .. n |-> IF j % 2 = 1 THEN 0 - 3 ELSE 0 - 2]
-    [] fam = "updirs"  -> [j \in 1 .. n |-> 0 - 3] \o <<8>>
-    [] fam = "empties" -> <<1>> \o [j \in 1 .. n |-> 0] \o <<1>>
-    [] fam = "mixed"   -> <<0 - 1>> \o [j \in 1 .. n |-> Pat[((j - 1) % 7) + 1]]
-    [] fam = "slash"   -> <<0 - 1, 0>>
-    [] fam = "tail"    -> <<n, 0>>
-    [] OTHER           -> <<>>
+Comps(f, x) ==
+  CASE f = "one"     -> <<x>>
+    [] f = "absone"  -> <<0 - 1, x>>
+    [] f = "ones"    -> [j \in 1 .. x |-> 1]
+    [] f = "big255"  -> [j \in 1 .. x |-> 255]
+    [] f = "dots"    -> [j \in 1 .. x |-> IF j % 2 = 1 THEN 0 - 3 ELSE 0 - 2]
+    [] f = "updirs"  -> [j \in 1 .. x |-> 0 - 3] \o <<8>>
+    [] f = "empties" -> <<1>> \o [j \in 1 .. x |-> 0] \o <<1>>
+    [] f = "mixed"   -> <<0 - 1>> \o [j \in 1 .. x |-> Pat[((j - 1) % 7) + 1]]
+    [] f = "slash"   -> <<0 - 1, 0>>
+    [] f = "tail"    -> <<x, 0>>
+    [] OTHER         -> <<>>
 
-FamMax(fam) ==
-  CASE fam \in {"one", "absone", "tail"} -> 600
-    [] fam \in {"ones", "dots", "updirs", "empties"} -> 130
-    [] fam = "big255" -> 8
-    [] fam = "mixed" -> 40
+FamMax(f) ==
+  CASE f \in {"one", "absone", "tail"} -> OneMax
+    [] f \in {"ones", "dots", "updirs", "empties"} -> 130
+    [] f = "big255" -> 8
+    [] f = "mixed" -> 40
     [] OTHER -> 1
 
 Families == {"one", "absone", "ones", "big255", "dots", "updirs", "empties", "mixed", "slash", "tail"}
 
 \* fixed targets used while the NAME length of a symlink is swept
-FixedTargets == {<<"one", 10>>, <<"one", 300>>, <<"updirs", 3>>, <<"mixed", 10>>, <<"absone", 100>>, <<"dots", 5>>}
+FixedTargets == {<<"one", 1>>, <<"one", 2>>, <<"one", 10>>, <<"one", 300>>, <<"updirs", 3>>, <<"mixed", 10>>,
+                 <<"absone", 100>>, <<"dots", 1>>, <<"dots", 5>>, <<"slash", 1>>, <<"ones", 12>>}
 
-FileLenFi == {6, 7, 13, 33, 100, 179, 180, 192, 193}
-DirLenFi  == {1, 2, 8, 31, 100, 179, 180, 192, 193}
-DenseLenFi == 7
 DenseLen(k) == IF k = "file" THEN 7 ELSE 8
 NameKinds == {"file", "dir", "cl", "moved"}
 FixedKinds == {"dot", "dotdot", "rootdot", "pldotdot"}
 
-VARIABLES ver, xa, kind, lenfi, nm, fam, n, sweep
-vars == <<ver, xa, kind, lenfi, nm, fam, n, sweep>>
+VARIABLES ver, xa, kind, lenfi, nm, fam, n, sweep, pl
+vars == <<ver, xa, kind, lenfi, nm, fam, n, sweep, pl>>
 
-P(k, l, m, f, x) == Place(ver, xa, k, l, m, IF k = "symlink" THEN Comps(f, x) ELSE <<>>)
+P(v, x, k, l, m, f, y) == Place(v, x, k, l, m, IF k = "symlink" THEN Comps(f, y) ELSE <<>>)
 
-Wit(why, pl) ==
-  PrintT(<<"WIT", ToJson([ver |-> ver', xa |-> xa', kind |-> kind', lenfi |-> lenfi', nm |-> nm',
-                          fam |-> fam', n |-> n', sweep |-> sweep', why |-> why,
-                          comps |-> IF kind' = "symlink" THEN Comps(fam', n') ELSE <<>>,
-                          ok |-> pl.ok, needce |-> pl.needce, reclen |-> pl.reclen, celen |-> pl.celen,
-                          dr |-> pl.dr, ce |-> pl.ce, heads |-> pl.heads])>>)
+Wit(why, m, y, p) ==
+  PrintT(<<"WIT", ToJson([ver |-> ver, xa |-> xa, kind |-> kind, lenfi |-> lenfi, nm |-> m,
+                          fam |-> fam, n |-> y, sweep |-> sweep, why |-> why,
+                          comps |-> IF kind = "symlink" THEN Comps(fam, y) ELSE <<>>,
+                          ok |-> p.ok, needce |-> p.needce, reclen |-> p.reclen, celen |-> p.celen,
+                          dr |-> p.dr, ce |-> p.ce, heads |-> p.heads])>>)
 
 Last == IF sweep = "nm" THEN (IF kind = "symlink" THEN 215
                                 ELSE IF lenfi = DenseLen(kind) THEN MaxNameDense ELSE MaxNameOther)
@@ -72,41 +77,35 @@ Cur == IF sweep = "nm" THEN nm ELSE n
 Init ==
   /\ ver \in Versions /\ xa \in BOOLEAN
   /\ \/ /\ kind \in NameKinds /\ sweep = "nm" /\ fam = "-" /\ n = 0 /\ nm = 1
-        /\ lenfi \in (IF kind = "file" THEN FileLenFi ELSE DirLenFi)
+        /\ lenfi \in (IF kind = "file" THEN FileLenFi ELSE IF kind = "dir" THEN DirLenFi ELSE RelocLenFi)
      \/ /\ kind \in FixedKinds /\ sweep = "-" /\ fam = "-" /\ n = 0 /\ nm = 0 /\ lenfi = 1
-     \/ /\ kind = "symlink" /\ sweep = "n" /\ fam \in Families /\ n = 1 /\ nm \in {3, 150}
-        /\ lenfi \in {6, 33}
-     \/ /\ kind = "symlink" /\ sweep = "nm" /\ nm = 1 /\ lenfi \in {7, 33}
+     \/ /\ kind = "symlink" /\ sweep = "n" /\ fam \in Families /\ n = 1 /\ nm \in SymNames
+        /\ lenfi \in SymLenFi
+     \/ /\ kind = "symlink" /\ sweep = "nm" /\ nm = 1 /\ lenfi \in SymLenFi
         /\ \E t \in FixedTargets : fam = t[1] /\ n = t[2]
+  /\ pl = P(ver, xa, kind, lenfi, nm, fam, n)
 
-\* the initial state is a witness too; TLC evaluates this when it generates the successors of
-\* an initial state (Cur = first value of the sweep), so every behaviour reports its first value
 Step ==
   /\ sweep \in {"nm", "n"}
   /\ Cur < Last
   /\ nm' = (IF sweep = "nm" THEN nm + 1 ELSE nm)
   /\ n' = (IF sweep = "n" THEN n + 1 ELSE n)
   /\ UNCHANGED <<ver, xa, kind, lenfi, fam, sweep>>
-  /\ \E a \in {P(kind, lenfi, nm, fam, n)} : \E b \in {P(kind, lenfi, nm', fam, n')} :
-       \E changed \in {Class(a) # Class(b)} :
-         /\ (changed \/ Cur = 1) =>
-               PrintT(<<"WIT", ToJson([ver |-> ver, xa |-> xa, kind |-> kind, lenfi |-> lenfi, nm |-> nm,
-                          fam |-> fam, n |-> n, sweep |-> sweep, why |-> IF changed THEN "below" ELSE "first",
-                          comps |-> IF kind = "symlink" THEN Comps(fam, n) ELSE <<>>,
-                          ok |-> a.ok, needce |-> a.needce, reclen |-> a.reclen, celen |-> a.celen,
-                          dr |-> a.dr, ce |-> a.ce, heads |-> a.heads])>>)
-         /\ IF changed THEN Wit("above", b)
-            ELSE IF Cur + 1 = Last THEN Wit("last", b)
-            ELSE IF sweep = "nm" /\ kind = "file" /\ lenfi = DenseLenFi /\ nm' <= 255 THEN Wit("dense", b)
-            ELSE IF sweep = "nm" /\ kind # "symlink" /\ nm' \in NamedLengths THEN Wit("named", b)
-            ELSE TRUE
+  /\ pl' = P(ver, xa, kind, lenfi, nm', fam, n')
+  /\ \E changed \in {Class(pl) # Class(pl')} :
+       /\ (changed \/ Cur = 1) => Wit(IF changed THEN "below" ELSE "first", nm, n, pl)
+       /\ IF changed THEN Wit("above", nm', n', pl')
+          ELSE IF Cur + 1 = Last THEN Wit("last", nm', n', pl')
+          ELSE IF sweep = "nm" /\ kind = "file" /\ lenfi = DenseLen(kind) /\ nm' <= 255 THEN Wit("dense", nm', n', pl')
+          ELSE IF sweep = "nm" /\ kind # "symlink" /\ nm' \in NamedLengths THEN Wit("named", nm', n', pl')
+          ELSE TRUE
 
-\* kinds without a length to sweep: one witness each
+\* cases without a length to sweep: one witness each
 Single ==
   /\ Last = 1 /\ Cur < 2 /\ sweep # "done"
   /\ sweep' = "done"
-  /\ UNCHANGED <<ver, xa, kind, lenfi, nm, fam, n>>
-  /\ Wit("single", P(kind, lenfi, nm, fam, n))
+  /\ UNCHANGED <<ver, xa, kind, lenfi, nm, fam, n, pl>>
+  /\ Wit("single", nm, n, pl)
 
 Next == Step \/ Single
 Spec == Init /\ [][Next]_vars
